@@ -261,6 +261,13 @@ class GatherMixin:
                     base.vars[k] = v
                     return
             return super().assign_target(ast.Subscript(value=_Lit(base), slice=t.slice, ctx=t.ctx, lineno=t.lineno, col_offset=0), v, st, s)
+        if isinstance(t, ast.Attribute):
+            base = self.eval(t.value, st)
+            if isinstance(base, SDs) and t.attr == "attrs":
+                from .lazy import _Map
+                base.attrs = dict(v.d) if isinstance(v, _Map) else dict(v)  # xarray copies the mapping
+                return
+            return super().assign_target(ast.Attribute(value=_Lit(base), attr=t.attr, ctx=t.ctx, lineno=t.lineno, col_offset=0), v, st, s)
         if isinstance(t, (ast.Tuple, ast.List)) and isinstance(v, WhereIdx):
             if len(t.elts) != len(v):
                 raise Unsupported("unpacking np.where (line %d)" % t.lineno)
@@ -361,6 +368,28 @@ class GatherMixin:
             return LArr("b", out, get, None, "all")
         raise Unsupported("np.min form (line %d)" % n.lineno)
 
+    def b_numpy_max(self, args, kw, st, n):
+        """np.max(boolean array, axis=k): 'any' along the axis"""
+        a = args[0]
+        axis = kw.get("axis", args[1] if len(args) > 1 else None)
+        if is_arr(a) and arr_dt(a) == "b" and isinstance(axis, int):
+            src = frozen(a, st) if isinstance(a, SArr) else a
+            shape = list(shape_of(a))
+            if axis < 0:
+                axis += len(shape)
+            out = shape[:axis] + shape[axis + 1:]
+            ext = shape[axis]
+
+            def get(ix, st2, src=src, axis=axis, ext=ext):
+                k = z3.Int(fresh_name("k"))
+                full = list(ix[:axis]) + [k] + list(ix[axis:])
+                return z3.Exists([k], z3.And(k >= 0, k < zi(ext), zb(as_bool(elem(src, full, st2)))))
+            return LArr("b", out, get, None, "any")
+        raise Unsupported("np.max form (line %d)" % n.lineno)
+
+    b_numpy_any = b_numpy_max
+    b_numpy_all = b_numpy_min
+
     def b_numpy_full(self, args, kw, st, n):
         fill = args[1]
         if "dtype" not in kw and len(args) < 3 and isinstance(fill, (int, bool)) and not isinstance(fill, float):
@@ -370,11 +399,59 @@ class GatherMixin:
     # ------------------------------------------------------------ xarray constructors
     def b_xarray_DataArray(self, args, kw, st, n):
         data = args[0]
-        if not is_arr(data):
+        if not (is_arr(data) or isinstance(data, SList)):
             raise Unsupported("xr.DataArray of %r (line %d)" % (type(data), n.lineno))
         return SData(data, dims=kw.get("dims"))
 
     b_xr_DataArray = b_xarray_DataArray
+
+    def b_xarray_Dataset(self, args, kw, st, n):
+        """xr.Dataset({name: (dims, array) | DataArray}, coords={...}) -- a new dataset object"""
+        variables, coords = {}, {}
+        dv = args[0] if args else kw.get("data_vars", {})
+        if not isinstance(dv, dict):
+            raise Unsupported("xr.Dataset form (line %d)" % n.lineno)
+        for k, v in dv.items():
+            if isinstance(v, tuple) and len(v) == 2:
+                variables[k] = SData(v[1], dims=v[0], name=k)
+            elif isinstance(v, SData):
+                variables[k] = v
+            else:
+                raise Unsupported("xr.Dataset variable %r (line %d)" % (k, n.lineno))
+        for k, v in (kw.get("coords") or {}).items():
+            coords[k] = v if isinstance(v, SData) else SData(v, name=k)
+        self._ds_count = getattr(self, "_ds_count", 0) + 1
+        return SDs("dataset%d" % self._ds_count, variables, coords, {}, {})
+
+    def copy_array(self, a, st):
+        if isinstance(a, SArr):
+            from .state import new_cell
+            cid = new_cell()
+            st.heap[cid] = a.snap if a.snap is not None else st.heap[a.cell]
+            self.local_cells.add(cid)
+            return SArr(cid, a.dt, a.shape, a.fixed, "copy_" + (a.name or "a"))
+        return a
+
+    def copy_value(self, v, st):
+        if isinstance(v, SData):
+            return SData(self.copy_array(v.arr, st), v.dims, v.name)
+        if is_arr(v):
+            return self.copy_array(v, st)
+        if isinstance(v, SDs):
+            return SDs(v.name + "_copy", {k: self.copy_value(x, st) for k, x in v.vars.items()},
+                       {k: self.copy_value(x, st) for k, x in v.coords.items()}, dict(v.attrs), dict(v.sizes))
+        return v
+
+    def b_copy_deepcopy(self, args, kw, st, n):
+        return self.copy_value(args[0], st)
+
+    def m_copy(self, recv, args, kw, st, n):
+        return self.copy_value(recv, st)
+
+    def call_method(self, recv, meth, args, kwargs, st, n):
+        if isinstance(recv, (SData, SDs)) and meth == "copy":
+            return self.copy_value(recv, st)
+        return super().call_method(recv, meth, args, kwargs, st, n)
 
 
 def _same_selection(m1, m2):
